@@ -812,7 +812,8 @@ func runWorker(c *fw.Ctx) *fw.Stats {
 	level("attributes and constructor round trips of every time and duration", func() bool {
 		for _, a := range e.vals {
 			fs, n := e.unary(a)
-			r.st.Nontrivial += int64(n)
+			r.st.Nontrivial++
+			r.st.Count("attribute_and_round_trip_checks", int64(n))
 			r.report(fs, Case{Check: "unary", Host: host, Names: []string{a.Name}})
 		}
 		return true
@@ -857,7 +858,8 @@ func runWorker(c *fw.Ctx) *fw.Stats {
 					return false
 				}
 				fs, n := e.lawPair(a, b)
-				r.st.Nontrivial += int64(n)
+				r.st.Nontrivial++
+				r.st.Count("law_instances_checked_on_pairs", int64(n))
 				r.report(fs, Case{Check: "pair", Host: host, Names: []string{a.Name, b.Name}})
 			}
 		}
@@ -922,7 +924,7 @@ func run(c *fw.Ctx) *fw.Stats {
 	sort.Slice(st.Viols, func(i, j int) bool { return st.Viols[i].Key < st.Viols[j].Key })
 	sort.Strings(st.Levels)
 	sort.Strings(st.Cut)
-	st.Notes = append(st.Notes, "evals counts distinct interpreter evaluations per host zone; laws (trichotomy, symmetry, transitivity) are checked on memoised results of the same expressions, so non-trivial checks can exceed evals")
+	st.Notes = append(st.Notes, "evals counts distinct interpreter evaluations per host zone; laws (trichotomy, symmetry, transitivity) are checked on memoised results of the same expressions, so the law counters can exceed evals; distinct_nontrivial counts one per value (attributes), one per judged (a, op, b) and one per ordered pair put through the laws")
 	return st
 }
 
